@@ -1,8 +1,9 @@
 (* Props/C09.v — CP-ALS returns a model consistent with everything it reports (PARTIAL: exact-arithmetic theorems).
    Only statements, `exact`, Print Assumptions and non-vacuity examples. *)
 From Coq Require Import List Arith Bool ZArith Ring Lia.
-From PV Require Import Base.Index Base.Sum Np.Array Model.Sparse Model.Repr Model.C09Als Model.C09Loop
-  Proofs.C09Identity Proofs.C09Monotone Proofs.C09Scaling Proofs.C09LoopProofs Proofs.C09Reported.
+From PV Require Import Base.Index Base.Perm Base.Sum Np.Array Model.Sparse Model.Repr Model.C08Kruskal Model.C09Als Model.C09Loop
+  Proofs.C09Identity Proofs.C09Monotone Proofs.C09Scaling Proofs.C09LoopProofs Proofs.C09Reported Proofs.C09Norm
+  Proofs.C09NormalForm Proofs.C09NormalRun.
 Import ListNotations.
 
 Section C09.
@@ -45,6 +46,26 @@ Theorem C09_reported_residual : forall (solve : @matrix V -> @matrix V -> @matri
   vsub (vadd (normsq_den v0 vadd vmul s X) (normsq_den v0 vadd vmul s (st_den V v0 v1 vadd vmul st'))) (vadd ip ip)
   = resid_den v0 vadd vmul vsub s X (st_den V v0 v1 vadd vmul st').
 Proof. exact (reported_residual V v0 v1 vadd vmul vsub vopp Vring). Qed.
+
+(* (1'') ktensor.norm as coded (coefMatrix = w w^T; for f in factors: coefMatrix *= f.T @ f; sum) is the sum of squares of the
+   denoted array, for every Kruskal tensor ... *)
+Theorem C09_knorm_gram : forall (K : ktensor V),
+  normsq_den v0 vadd vmul (kshape K) (den_k v0 v1 vadd vmul K) = knormsq_code V v0 vadd vmul K.
+Proof. exact (knorm_gram V v0 v1 vadd vmul vsub vopp Vring). Qed.
+
+(* ... so the reported residual is covered END TO END with the code's own formulas: normX^2 + M.norm()^2 (Gram/Hadamard form)
+   - 2 * iprod (saved mttkrp of the mode updated last, new factor, new weights) = ||X - M||^2 of the new state's model *)
+Theorem C09_reported_residual_code : forall (solve : @matrix V -> @matrix V -> @matrix V) (scale : nat -> @matrix V -> list V * @matrix V)
+    (R : nat) (X : idx -> V) (s : shape) (it : nat) (st : als_state V) (n : nat),
+  let mkX := fun U m => mttkrp_mat v0 v1 vadd vmul s X U m R in
+  st_wf V R s st -> n < length s ->
+  length (st_w (als_update v0 v1 vadd vmul mkX solve scale R it st n)) = R ->
+  nrows (nth n (st_U (als_update v0 v1 vadd vmul mkX solve scale R it st n)) []) = nth n s 0 ->
+  let st' := als_update v0 v1 vadd vmul mkX solve scale R it st n in
+  let ip := iprod_saved v0 vadd vmul R (nth n s 0) (st_w st') (nth n (st_U st') []) (fun j r => mget v0 (st_P st') j r) in
+  vsub (vadd (normsq_den v0 vadd vmul s X) (knormsq_code V v0 vadd vmul (st_model st'))) (vadd ip ip)
+  = resid_den v0 vadd vmul vsub s X (st_den V v0 v1 vadd vmul st').
+Proof. exact (reported_residual_code V v0 v1 vadd vmul vsub vopp Vring). Qed.
 
 (* (2a) why Y = Hadamard product of the Grams: the mode-n MTTKRP of the Kruskal model itself is  a . Y *)
 Theorem C09_mttkrp_of_model : forall (As : list (@matrix V)) (n R : nat) (a : nat -> nat -> V) (j t : nat),
@@ -129,6 +150,54 @@ Theorem C09_ls_step_monotone : forall (X : idx -> V) (As : list (@matrix V)) (n 
 Proof. exact (ls_step_monotone V v0 v1 vadd vmul vsub vopp Vring vle le_refl le_add_nonneg add_nonneg sq_nonneg). Qed.
 End C09ord.
 
+(* ---- (3') normal form of the returned model: the final M.arrange() (executable Kruskal model of C08: k_arrange None =
+   normalize columns mode by mode, flip negative weights into factor 0, gather by np.argsort(weights)[::-1]) ----
+   Oracles: nrm (np.linalg.norm of a column), pos/neg (sign tests), vinv (1/x), srt (argsort descending), with the contracts below
+   (the norm-oracle contract of C08 plus nrm_spec "the oracle returns the 2-norm" and the sort contract) *)
+Section C09nf.
+Variable V : Type.
+Variables (v0 v1 : V) (vadd vmul vsub : V -> V -> V) (vopp vinv : V -> V).
+Hypothesis Vring : ring_theory v0 v1 vadd vmul vsub vopp (@eq V).
+Variables (nrm : list V -> V) (pos neg : V -> bool) (root : V -> V) (srt : list V -> list nat) (negcol : list V -> bool).
+Variable vle : V -> V -> Prop.
+Hypothesis vinv_r : forall x, x <> v0 -> vmul x (vinv x) = v1.
+Hypothesis pos_nz : forall x, pos x = true -> x <> v0.
+Hypothesis nrm_pos : forall l, pos (nrm l) = false -> Forall (fun y => y = v0) l.
+Hypothesis nrm_spec : forall l, vmul (nrm l) (nrm l) = dot v0 vadd vmul l l.
+Hypothesis neg_opp : forall x, neg x = true -> neg (vopp x) = false.
+Hypothesis srt_perm : forall l, is_perm (srt l) (length l).
+Hypothesis srt_desc : forall l r, S r < length l -> vle (nth (nth (S r) (srt l) 0) l v0) (nth (nth r (srt l) 0) l v0).
+
+(* C09_normal_form: for EVERY ktensor with at least one factor matrix, arrange gives the same rank and shape, columns of squared
+   2-norm 1 (or identically zero), no negative weight, weights in descending order *)
+Theorem C09_normal_form : forall K : ktensor V, kfactors K <> [] ->
+  let K' := k_arrange v0 v1 vmul vopp vinv nrm pos neg root srt None K in
+  (krank K' = krank K /\ kshape K' = kshape K) /\
+  (forall n r, n < length (kfactors K) -> r < krank K ->
+     let c := col v0 (nth n (kfactors K') []) r in dot v0 vadd vmul c c = v1 \/ Forall (fun y => y = v0) c) /\
+  (forall r, r < krank K -> neg (nth r (kweights K') v0) = false) /\
+  (forall r, S r < krank K -> vle (nth (S r) (kweights K') v0) (nth r (kweights K') v0)).
+Proof. exact (normal_form_arrange_nowf V v0 v1 vadd vmul vsub vopp vinv Vring nrm pos neg root srt vle
+                vinv_r pos_nz nrm_pos nrm_spec neg_opp srt_perm srt_desc). Qed.
+
+(* ... and for the model RETURNED by the cp_als loop model whose arrange / fixsigns are k_arrange None / k_fixsigns: every limit
+   (0 included), printing interval, tolerance, start *)
+Theorem C09_normal_form_run : forall (F : Type) (sweep : nat -> ktensor V -> ktensor V) (fit_mttkrp fit_innerprod : ktensor V -> F * F)
+    (fchange_lt : F -> F -> F -> bool) (fit0 : F) tol p s0 m dofix (r : result (ktensor V) F),
+  cpals_run sweep fit_mttkrp fit_innerprod fchange_lt fit0 (k_arrange v0 v1 vmul vopp vinv nrm pos neg root srt None)
+            (k_fixsigns v0 v1 vmul vopp negcol) tol p s0 m dofix = Some r ->
+  let last := iter_sweep sweep (length (r_trace r)) s0 in
+  kfactors last <> [] ->
+  (forall q, q < krank last -> neg (nth q (kweights (r_state r)) v0) = false) /\
+  (forall q, S q < krank last -> vle (nth (S q) (kweights (r_state r)) v0) (nth q (kweights (r_state r)) v0)) /\
+  (dofix = false ->
+     (krank (r_state r) = krank last /\ kshape (r_state r) = kshape last) /\
+     forall n q, n < length (kfactors last) -> q < krank last ->
+       let c := col v0 (nth n (kfactors (r_state r)) []) q in dot v0 vadd vmul c c = v1 \/ Forall (fun y => y = v0) c).
+Proof. exact (run_normal_form V v0 v1 vadd vmul vsub vopp vinv Vring nrm pos neg root srt negcol vle
+                vinv_r pos_nz nrm_pos nrm_spec neg_opp srt_perm srt_desc). Qed.
+End C09nf.
+
 (* ---- (4) bookkeeping of the outer loop (Model/C09Loop.v: statement-by-statement transliteration of cp_als.py:199-298) ---- *)
 Section C09book.
 Variables (St F : Type) (sweep : nat -> St -> St) (fit_mttkrp fit_innerprod : St -> F * F)
@@ -198,6 +267,10 @@ End C09book.
 Print Assumptions C09_fit_identity.
 Print Assumptions C09_fit_identity_sum.
 Print Assumptions C09_reported_residual.
+Print Assumptions C09_knorm_gram.
+Print Assumptions C09_reported_residual_code.
+Print Assumptions C09_normal_form.
+Print Assumptions C09_normal_form_run.
 Print Assumptions C09_mttkrp_of_model.
 Print Assumptions C09_ls_step_identity.
 Print Assumptions C09_normal_eq.
@@ -291,3 +364,10 @@ Proof.
     destruct (b 0%nat); try discriminate; reflexivity.
   - split; vm_compute; reflexivity.
 Qed.
+
+(* non-vacuity of C09_knorm_gram: a non-symmetric 3x2 rank-2 model over Z: coefMatrix.sum() = sum of squares of the array *)
+Example C09_knorm_example :
+  let K := mkK [2; -1]%Z [ [[1; 0]; [2; 1]; [0; 3]]; [[1; 2]; [-1; 1]] ]%Z in
+  (knormsq_code Z 0%Z Z.add Z.mul K = normsq_den 0%Z Z.add Z.mul [3; 2]%nat (den_k 0%Z 1%Z Z.add Z.mul K) /\
+   knormsq_code Z 0%Z Z.add Z.mul K = 82)%Z.
+Proof. vm_compute. split; reflexivity. Qed.
